@@ -360,7 +360,7 @@ def _covered(text, m, spans):
 def _e2e(ctx):
     from gen import analysis as A
     rng = ctx.rng("texts")
-    n = ctx.budget(100, 400)
+    n = ctx.budget(94, 400)
     texts = [u"alfa bravo charlie", u"The quick brown fox", u"", u" ", u"a", u"x" * 300, u"big-time under_score 3.141 e.g. Wi-Fi"]
     import json
     import os
@@ -450,7 +450,7 @@ def _format_work(cases):
 def _correspondence(ctx):
     from gen import analysis as A
     rng = ctx.rng("corr")
-    n = ctx.budget(220, 2500)
+    n = ctx.budget(208, 2500)
     texts = [u"", u" ", u"a", u"The a.b x", u"a..b .c. d.e.f_g", u"x,y , z,,", u"  lead and trail  "]
     texts += [A.gen_text(rng) for _ in range(n)]
     # the per-character lower-casing of the model is str.lower() except for the final-sigma rule
@@ -582,14 +582,183 @@ def _multifield(ctx):
                       "Hit.highlights(field) marks a word that the query asked only of another field")
 
 
+_SYLL = ["ka", "re", "mi", "to", "su", "ne", "lo", "vi", "da", "po", "che", "gu", "sti", "bra", "fle", "on"]
+_SUFF = ["", "s", "ing", "ed", "er", "en", "es", "ung", "ly", "ation"]
+
+
+def _filler(i):
+    """The i-th of an unbounded supply of distinct alphabetic words."""
+    w, k = [], i
+    while True:
+        w.append(_SYLL[k % 16])
+        k //= 16
+        if k == 0:
+            break
+    return u"q" + u"".join(w) + _SUFF[i % len(_SUFF)] + u"z" * (i % 3 == 0)
+
+
+def _hist_work(args):
+    """Worker: an analyzer object has a history.  One *fresh* analyzer object of the catalogue:
+    analyse texts (both modes), index them, then let the same object process more distinct words than
+    any cache of its filters holds (`cachesize` attributes; at least 400), then
+      - the same object must analyse every text exactly as before (both modes),
+      - a pickled-and-reloaded copy (what a re-opened index uses) must agree with the used object,
+      - the documents indexed before must still be found by what the parser builds from their words."""
+    name, texts = args
+    import os
+    import pickle
+    import time
+    from gen import analysis as A
+    from whoosh import fields, qparser, query
+    from whoosh.filedb.filestore import RamStorage
+    out = {"name": name, "viol": [], "ncases": 0, "nfill": 0}
+    t0 = time.time()
+    try:
+        ana = A.CATALOGUE[name][0]()
+    except Exception as e:
+        out["skipped"] = repr(e)
+        return out
+
+    def viol(sig, text, expected, observed, desc):
+        out["viol"].append((sig, {"analyzer": name, "kind": "history", "text": text}, expected, observed, desc))
+
+    def cap(a, text, mode):
+        try:
+            return A.capture(a, text, positions=True, chars=name not in A.NO_CHARS, mode=mode)
+        except Exception as e:
+            return "raised %s" % type(e).__name__
+    sizes = [f.cachesize for f in getattr(ana, "items", [ana])
+             if isinstance(getattr(f, "cachesize", None), int) and f.cachesize > 0]
+    nfill = max([400] + [c + c // 8 + 50 for c in sizes])
+    out["nfill"] = nfill
+    before = [(cap(ana, t, "index"), cap(ana, t, "query")) for t in texts]
+    field = fields.TEXT(analyzer=ana, phrase=True, stored=True)
+    schema = fields.Schema(id=fields.ID(stored=True), b=field)
+    ix = RamStorage().create_index(schema, indexname="c17h%dx%s" % (os.getpid(), re.sub(r"\W", "", name)))
+    indexed = []
+    w = ix.writer()
+    for ti, text in enumerate(texts):
+        if isinstance(before[ti][0], str):
+            continue
+        try:
+            w.add_document(id=u"%d" % ti, b=text)
+            indexed.append(ti)
+        except Exception:
+            w.cancel()
+            w = ix.writer()
+            for tj in indexed:
+                w.add_document(id=u"%d" % tj, b=texts[tj])
+    w.commit()
+    # ordinary life goes on: other documents, other queries - through the same analyzer object
+    # (the writer's and the parser's, whichever objects those are)
+    i = 0
+    w = ix.writer()
+    while i < nfill:
+        chunk = u" ".join(_filler(j) for j in range(i, min(nfill, i + 500)))
+        i += 500
+        for mode in ("index", "query"):
+            for _ in ana(chunk, mode=mode):
+                pass
+        if i <= 3000 or nfill <= 3000:
+            w.add_document(id=u"f%d" % i, b=chunk)
+    w.commit()
+    try:
+        copy = pickle.loads(pickle.dumps(ana, 2))
+    except Exception:
+        copy = None
+    for ti, text in enumerate(texts):
+        out["ncases"] += 1
+        for mi, mode in enumerate(("index", "query")):
+            b = before[ti][mi]
+            a = cap(ana, text, mode)
+            if a != b:
+                diff = [(x, y) for x, y in zip(b, a) if x != y][:3] if not isinstance(a, str) and not isinstance(b, str) else []
+                viol("history:analysis-changes-with-use:%s" % mode, text, repr(b)[:300],
+                     {"after_%d_other_words" % nfill: repr(a)[:300], "first_differences": repr(diff)[:300]},
+                     "the same analyzer object analyses the same text differently after it has processed other words: "
+                     "what was indexed before and what is asked now no longer agree")
+                break
+            if copy is not None:
+                c = cap(copy, text, mode)
+                if c != a:
+                    viol("history:reloaded-analyzer-differs:%s" % mode, text, repr(a)[:300], repr(c)[:300],
+                         "a pickled and reloaded copy of the analyzer (what a re-opened index uses) analyses the text "
+                         "differently from the object in use")
+                    break
+    qp = qparser.QueryParser("b", schema)
+    with ix.searcher() as s:
+        docnum = dict((stored["id"], dn) for dn, stored in s.iter_docs())
+        for ti in indexed:
+            text = texts[ti]
+            itoks = before[ti][0]
+            pieces = [text]
+            if A.CATALOGUE[name][2] and name not in A.NO_CHARS:
+                tkz = getattr(ana, "items", [ana])[0]
+                pat = getattr(getattr(tkz, "expression", None), "pattern", "") or ""
+                if not any(x in pat for x in ("(?=", "(?!", "(?<=", "(?<!")):
+                    srcs = [text[t[2]:t[3]] for t in itoks if t[2] is not None and t[3] > t[2]]
+                    pieces += srcs[:6]
+            try:
+                for wd in sorted(set(t[0] for t in itoks if not t[5]))[:20]:
+                    if docnum[u"%d" % ti] not in set(s.docs_for_query(query.Term("b", wd))):
+                        viol("history:own-token", text, "Term(%r) matches" % wd, "no match",
+                             "a token the analyzer produced for the text before indexing does not find the document")
+                        break
+                for piece in pieces:
+                    q = qp.term_query("b", piece, query.Term)
+                    if q is None or (hasattr(q, "subqueries") and not q.subqueries):
+                        continue
+                    q = q.normalize()
+                    if hasattr(q, "subqueries") and len(q.subqueries) > 300:
+                        continue
+                    if docnum[u"%d" % ti] not in set(s.docs_for_query(q)):
+                        viol("history:parser-term", text, "term_query(%r) matches" % piece[:80], repr(q)[:200],
+                             "a document indexed earlier is no longer found by the query the parser builds from its "
+                             "own words after the analyzer has processed %d other words" % nfill)
+                        break
+            except Exception as e:
+                viol("history:search:%s:%s" % A.exc_signature(e, sys.exc_info()[2]), text, "results", repr(e)[:200], "")
+    out["secs"] = time.time() - t0
+    return out
+
+
+def _history(ctx):
+    from gen import analysis as A
+    rng = ctx.rng("history")
+    texts = [u"running geese rendering database Straße", u"Deferred rendering and shading of landscapes",
+             u"big-time under_score 3.141 e.g. Wi-Fi PowerShot SD500"]
+    texts += [t for t in (A.gen_text(rng) for _ in range(ctx.budget(40, 200))) if len(t) < 400][:ctx.budget(12, 60)]
+    results = ctx.pmap(_hist_work, [(name, texts) for name in A.CATALOGUE])
+    slow = sorted(((r.get("secs", 0), r["name"]) for r in results), reverse=True)[:3]
+    ctx.note("history: slowest jobs " + ", ".join("%s %.1fs" % (nm, s) for s, nm in slow))
+    for r in results:
+        if "skipped" in r:
+            continue
+        ctx.case(("history", r["name"], r["nfill"]), nontrivial=True, n=r["ncases"])
+        ctx.stat("history:analyzers")
+        ctx.stat("history:filler-words", r["nfill"])
+        seen = {}
+        for sig, case, exp, obs, desc in r["viol"]:
+            ctx.stat("viol:%s:%s" % (r["name"], sig))
+            if sig not in seen or len(case["text"]) < len(seen[sig][1]["text"]):
+                seen[sig] = (sig, case, exp, obs, desc)
+        for sig, case, exp, obs, desc in seen.values():
+            ctx.violation(sig + ":" + r["name"], case, exp, obs, desc)
+
+
 def run(ctx):
     _correspondence(ctx)
     _e2e(ctx)
+    _history(ctx)
     _multifield(ctx)
 
 
 def replay(ctx, rec):
     case = rec.get("case", {})
+    if case.get("kind") == "history":
+        out = _hist_work((case["analyzer"], [case["text"]]))
+        print(out["viol"])
+        return bool(out["viol"])
     out = _work((case.get("kind", "analyzer"), case["analyzer"], [case["text"]]))
     print(out["viol"])
     return bool(out["viol"])
@@ -605,7 +774,11 @@ EXPLANATION = (
     "its words, by phrases of consecutive positions; check positions and offsets against the source text; highlight "
     "with every fragmenter x formatter and check the substring and marked-span claims. Multi-field highlighting: "
     "documents with title/body/note fields, queries that ask different words of different fields, "
-    "Searcher.search(terms=True/False): an excerpt of one field must not mark a word that was only asked of another."
+    "Searcher.search(terms=True/False): an excerpt of one field must not mark a word that was only asked of another. "
+    "History: a fresh object of every catalogue analyzer analyses and indexes texts, then processes more distinct "
+    "other words than any cache of its filters holds (StemFilter cachesize; bounded caches of 4/8/32 entries with an "
+    "ignore list are in the catalogue), then must analyse the texts exactly as before (both modes), agree with a "
+    "pickled-and-reloaded copy, and the early documents must still be found by the parser's query for their words."
 )
 ASSUMPTIONS = [
     "characters reach the model classified by Python (\\w, isspace, lower()); the per-character lower() table differs "
